@@ -31,7 +31,7 @@ import (
 )
 
 var (
-	mode      = flag.String("mode", "syn", "syn | std")
+	mode      = flag.String("mode", "syn", "syn | std | dyn")
 	spaceFile = flag.String("space", "", "space.json (std mode)")
 	export    = flag.String("export", "", "write the exported standard space to this file")
 	nNodes    = flag.Int("nodes", 60, "number of sampled standard nodes to export")
@@ -47,8 +47,18 @@ type ref struct {
 	RC int    `json:"rc,omitempty"` // class recorded in the reference description (diagnostic)
 }
 
+type addition struct {
+	Kind   string `json:"kind"` // subtype | ref
+	Parent string `json:"parent"`
+	Child  string `json:"child"`
+	Node   string `json:"node"`
+	Ref    ref    `json:"ref"`
+}
+
 type space struct {
 	Kind    string              `json:"kind,omitempty"`
+	Phase   int                 `json:"phase"`
+	Adds    []addition          `json:"adds,omitempty"`
 	Types   map[string][]string `json:"types"`
 	Nodes   map[string][]ref    `json:"nodes"`
 	Targets map[string]string   `json:"targets,omitempty"`
@@ -56,6 +66,7 @@ type space struct {
 
 type row struct {
 	Kind      string `json:"kind,omitempty"`
+	Phase     int    `json:"phase"`
 	Node      string `json:"node"`
 	Dir       string `json:"dir"`
 	RT        string `json:"rt"`
@@ -68,8 +79,9 @@ type row struct {
 }
 
 type childInput struct {
-	Mode  string `json:"mode"`
-	Space space  `json:"space"`
+	Mode   string  `json:"mode"`
+	Space  space   `json:"space"`
+	Phases []space `json:"phases,omitempty"` // dyn mode: the space of every phase, index = phase
 }
 
 func main() {
@@ -100,6 +112,7 @@ func main() {
 
 func parent() {
 	var sp space
+	var phases []space
 	var rows []row
 	raw := vfgo.Cases[json.RawMessage]()
 	for _, r := range raw {
@@ -108,9 +121,17 @@ func parent() {
 		}
 		json.Unmarshal(r, &probe)
 		if probe.Kind == "space" {
-			if err := json.Unmarshal(r, &sp); err != nil {
+			var x space
+			if err := json.Unmarshal(r, &x); err != nil {
 				vfgo.Fatalf("bad space row: %v", err)
 			}
+			if x.Phase == 0 {
+				sp = x
+			}
+			for len(phases) <= x.Phase {
+				phases = append(phases, space{})
+			}
+			phases[x.Phase] = x
 			continue
 		}
 		var x row
@@ -131,7 +152,15 @@ func parent() {
 	if len(sp.Nodes) == 0 {
 		vfgo.Fatalf("no address space given")
 	}
-	spb, _ := json.Marshal(childInput{Mode: *mode, Space: sp})
+	in := childInput{Mode: *mode, Space: sp}
+	if *mode == "dyn" {
+		in.Phases = phases
+		// one server for all phases (what it remembered in an earlier phase must not leak into a
+		// later one), rows in phase order
+		*shards = 1
+		sort.SliceStable(rows, func(i, j int) bool { return rows[i].Phase < rows[j].Phase })
+	}
+	spb, _ := json.Marshal(in)
 	sf, err := os.CreateTemp(os.Getenv("VERIF_SCRATCH"), "space-*.json")
 	if err != nil {
 		vfgo.Fatalf("temp: %v", err)
@@ -143,12 +172,12 @@ func parent() {
 	// predicted-to-crash cases last (scheduling only: the verdict never uses the prediction)
 	order := make([]int, 0, len(rows))
 	for i, r := range rows {
-		if !r.AsIsPanic {
+		if !r.AsIsPanic || *mode == "dyn" {
 			order = append(order, i)
 		}
 	}
 	for i, r := range rows {
-		if r.AsIsPanic {
+		if r.AsIsPanic && *mode != "dyn" {
 			order = append(order, i)
 		}
 	}
@@ -232,7 +261,11 @@ func classOf(r row) string {
 	} else if !sameInts(r.Exp, r.AsIs) {
 		sh = "asisdiffers"
 	}
-	return fmt.Sprintf("%s/%s/sub=%v/%s/%s/%s/known=%v", r.Dir, rt, r.Sub, m, res, sh, r.Known)
+	ph := ""
+	if r.Phase > 0 {
+		ph = fmt.Sprintf("/phase%d", r.Phase)
+	}
+	return fmt.Sprintf("%s/%s/sub=%v/%s/%s/%s/known=%v%s", r.Dir, rt, r.Sub, m, res, sh, r.Known, ph)
 }
 
 func sameInts(a, b []int) bool {
@@ -458,7 +491,7 @@ func childRun() {
 		fmt.Fprintln(os.Stderr, "batch:", err)
 		os.Exit(4)
 	}
-	synthetic = in.Mode == "syn"
+	synthetic = in.Mode == "syn" || in.Mode == "dyn"
 	pop := populateStd
 	if synthetic {
 		pop = populateSyn(in.Space)
@@ -468,8 +501,38 @@ func childRun() {
 		fmt.Fprintln(os.Stderr, "start:", err)
 		os.Exit(4)
 	}
-	// binding check: the space the oracle was computed on is the space the server holds
-	for nd, rs := range in.Space.Nodes {
+	checkSpace(s, in.Space)
+	c, err := srvkit.Connect(url)
+	if err != nil {
+		fmt.Fprintln(os.Stderr, "connect:", err)
+		os.Exit(4)
+	}
+	cur, sp := 0, in.Space
+	for k, r := range rows {
+		// the address space changes between browses: apply the additions of the next phase
+		// through the server API (AddNode, Node.AddRef)
+		for cur < r.Phase && cur+1 < len(in.Phases) {
+			cur++
+			sp = in.Phases[cur]
+			if err := applyAdds(s, sp); err != nil {
+				fmt.Fprintln(os.Stderr, "adds:", err)
+				os.Exit(4)
+			}
+			checkSpace(s, sp)
+		}
+		out.Begin(idx[k])
+		out.Put(one(c, sp, idx[k], r))
+	}
+	ctx, cancel := context.WithTimeout(context.Background(), 2*time.Second)
+	c.Close(ctx)
+	cancel()
+	s.Close()
+}
+
+// checkSpace is the binding check: the space the oracle was computed on is the space the
+// server holds (own reference lists of the browsable nodes, HasSubtype children of the types).
+func checkSpace(s *server.Server, sp space) {
+	for nd, rs := range sp.Nodes {
 		n := s.Node(nodeID(nd))
 		if n == nil {
 			fmt.Fprintln(os.Stderr, "space mismatch: node missing", nd)
@@ -487,19 +550,58 @@ func childRun() {
 			}
 		}
 	}
-	c, err := srvkit.Connect(url)
+	hs := ua.NewNumericNodeID(0, id.HasSubtype)
+	for t, ch := range sp.Types {
+		n := s.Node(nodeID(t))
+		if n == nil {
+			fmt.Fprintln(os.Stderr, "space mismatch: reference type missing", t)
+			os.Exit(4)
+		}
+		var got []string
+		for _, r := range server.VerifNodeRefs(n) {
+			if r.ReferenceTypeID.Equal(hs) && r.IsForward && r.NodeID != nil {
+				got = append(got, specID(r.NodeID.NodeID))
+			}
+		}
+		if synthetic && strings.Join(got, ",") != strings.Join(ch, ",") {
+			fmt.Fprintf(os.Stderr, "space mismatch: subtypes of %s are %v, oracle space %v\n", t, got, ch)
+			os.Exit(4)
+		}
+	}
+}
+
+// applyAdds performs the AddSubtype / AddRef actions of a phase on the running server.
+func applyAdds(s *server.Server, sp space) error {
+	nsi, err := s.Namespace(1)
 	if err != nil {
-		fmt.Fprintln(os.Stderr, "connect:", err)
-		os.Exit(4)
+		return err
 	}
-	for k, r := range rows {
-		out.Begin(idx[k])
-		out.Put(one(c, in.Space, idx[k], r))
+	ns := nsi.(*server.NodeNameSpace)
+	for _, a := range sp.Adds {
+		switch a.Kind {
+		case "subtype":
+			parent := s.Node(nodeID(a.Parent))
+			if parent == nil {
+				return fmt.Errorf("no parent type %s", a.Parent)
+			}
+			child := s.Node(nodeID(a.Child))
+			if child == nil {
+				child = ns.AddNode(mkNode(nodeID(a.Child), a.Child, ua.NodeClassReferenceType, nil))
+			}
+			parent.AddRef(child, server.RefType(id.HasSubtype), true)
+		case "ref":
+			// Node.AddRef only takes namespace-0 numeric reference types; a node with the longer
+			// reference list is (re-)added instead, which replaces the node in the namespace
+			var refs []*ua.ReferenceDescription
+			for _, r := range sp.Nodes[a.Node] {
+				refs = append(refs, mkRef(nodeID(r.T), r.F, nodeID(r.N), r.N, ua.NodeClass(r.C)))
+			}
+			ns.AddNode(mkNode(nodeID(a.Node), a.Node, ua.NodeClassObject, refs))
+		default:
+			return fmt.Errorf("unknown addition %q", a.Kind)
+		}
 	}
-	ctx, cancel := context.WithTimeout(context.Background(), 2*time.Second)
-	c.Close(ctx)
-	cancel()
-	s.Close()
+	return nil
 }
 
 func triple(t string, f bool, n string) string { return fmt.Sprintf("%s|%v|%s", t, f, n) }
